@@ -1080,6 +1080,31 @@ def real_runs(check, repo, quick):
                 pass
             if env.prepare_lock.locked():
                 fail('missing executable left the lock held', '')
+            # the launch fails inside the BACKGROUND starter (prepare()), later a launch would succeed: the next call starts a server
+            hook = threading.excepthook
+            threading.excepthook = lambda a: None
+            try:
+                env = R.Environment(executable='/nonexistent/python')
+                env.prepare()
+                t = env.prepare_thread
+                if t is not None:
+                    t.join(8)
+                env.executable = sys.executable
+                n0 = len(launched)
+                for k in range(2):
+                    try:
+                        if env.eval('return 6') != 6:
+                            fail('wrong answer after a failed background launch', '')
+                    except Exception as e:  # noqa
+                        fail('client unusable after a failed background launch (call %d)' % (k + 1), repr(e)[:200])
+                        break
+                # (the failed Popen is counted too: it raised inside its constructor)
+                if hasattr(env, 'conn'):
+                    p = env.proc
+                    env.close()
+                    p.wait(timeout=8)
+            finally:
+                threading.excepthook = hook
         finally:
             R.time = saved
 
